@@ -286,30 +286,39 @@ func main() {
 		sj, _ := json.Marshal(hs)
 		specPath := filepath.Join(dir, "host.json")
 		os.WriteFile(specPath, sj, 0o644)
-		cmd := exec.Command(workerSrc, "host", specPath)
-		cmd.Stderr = nil
-		outCh := make(chan []byte, 1)
-		go func() { o, _ := cmd.Output(); outCh <- o }()
-		var out []byte
-		select {
-		case out = <-outCh:
-		case <-time.After(180 * time.Second):
-			if cmd.Process != nil {
-				cmd.Process.Kill()
-			}
-			r.Event("watchdog-fired")
-			if c.Ctx != "background" {
-				r.Violation(map[string]string{"kind": "no-bounded-return", "timing": c.Timing, "ctx": c.Ctx},
-					fmt.Sprintf("%s: the call had not returned 180 s after start although its context ended after 300 ms", c.ID), map[string]any{"case": c})
-			} else {
-				r.Inconclusive("watchdog fired for " + c.ID)
-			}
-			return
-		}
 		var res hostResult
-		if json.Unmarshal(out, &res) != nil {
-			r.Inconclusive(fmt.Sprintf("host child for %s produced no result: %q", c.ID, out))
-			return
+		for attempt := 0; ; attempt++ {
+			cmd := exec.Command(workerSrc, "host", specPath)
+			var hostErr bytes.Buffer
+			cmd.Stderr = &hostErr
+			outCh := make(chan []byte, 1)
+			go func() { o, _ := cmd.Output(); outCh <- o }()
+			var out []byte
+			select {
+			case out = <-outCh:
+			case <-time.After(180 * time.Second):
+				if cmd.Process != nil {
+					cmd.Process.Kill()
+				}
+				r.Event("watchdog-fired")
+				if c.Ctx != "background" {
+					r.Violation(map[string]string{"kind": "no-bounded-return", "timing": c.Timing, "ctx": c.Ctx},
+						fmt.Sprintf("%s: the call had not returned 180 s after start although its context ended after 300 ms", c.ID), map[string]any{"case": c})
+				} else {
+					r.Inconclusive("watchdog fired for " + c.ID)
+				}
+				return
+			}
+			if json.Unmarshal(out, &res) == nil {
+				break
+			}
+			// the HOST process (harness) died or printed nothing - nothing was observed about the library: try again
+			r.Event("host-child-without-result-retried")
+			r.Sample("host child without result", map[string]any{"case": c.ID, "stdout": string(out), "stderr": hostErr.String(), "attempt": attempt})
+			if attempt == 2 {
+				r.Inconclusive(fmt.Sprintf("host child for %s produced no result three times: stdout %q stderr %q", c.ID, out, hostErr.String()))
+				return
+			}
 		}
 		key := c.ID
 		if c.ReplyClass == "valid" && c.StderrKind == "empty" && c.B.Exit == 0 && !c.B.KillSelf && c.Timing == "immediate" {
